@@ -39,7 +39,9 @@ def frame(tc, fields, bg, keep):
     return F.es(me, [0x406B90, 0xFFFFFF, 0][k % 3], k % 8, 17 + k % 2, [0, 0xFFFFFF][k % 2])
 
 
-BGS = [0, ME_ONES, 0x55555555555555, 0xAAAAAAAAAAAAAA]
+# zeros, ones, alternating - and plausible reports: the ME fields of real messages (TC29 target state, TC28 emergency,
+# TC19 velocity, TC11 position), so that every field is also swept inside a message whose other fields hold ordinary values
+BGS = [0, ME_ONES, 0x55555555555555, 0xAAAAAAAAAAAAAA, 0xEA21485CBF3F8C, 0xE112B600000000, 0x994409940838175B >> 8, 0x58C901375147EF]
 
 
 def keepset(*ranges):
